@@ -381,6 +381,8 @@ package kafka
 //@ func (*Conn).waitResponse
 //@   option noframe
 //@   modifies heap
+//@   ghostdef c.$frameEnd == (&c.rbuf).$rpos + size
+//@   ensures err == nil ==> c.$frameEnd == (&c.rbuf).$rpos + size
 //@   ensures err == nil ==> rid == id && lock != nil
 //@   ensures err != nil ==> c.conn.$cclosed
 //@ func (*Conn).doRequest
@@ -548,27 +550,27 @@ package kafka
 //@ func readInt8
 //@   modifies *v, r.$rpos
 //@   ensures racct(r, sz, result0)
-//@   ensures result1 == nil ==> result0 == sz - 1
+//@   ensures result1 == nil ==> result0 == sz - 1 && result0 >= 0
 //@   ensures !spec.iskafka(result1)
 //@ func readInt16
 //@   modifies *v, r.$rpos
 //@   ensures racct(r, sz, result0)
-//@   ensures result1 == nil ==> result0 == sz - 2
+//@   ensures result1 == nil ==> result0 == sz - 2 && result0 >= 0
 //@   ensures !spec.iskafka(result1)
 //@ func readInt32
 //@   modifies *v, r.$rpos
 //@   ensures racct(r, sz, result0)
-//@   ensures result1 == nil ==> result0 == sz - 4
+//@   ensures result1 == nil ==> result0 == sz - 4 && result0 >= 0
 //@   ensures !spec.iskafka(result1)
 //@ func readInt64
 //@   modifies *v, r.$rpos
 //@   ensures racct(r, sz, result0)
-//@   ensures result1 == nil ==> result0 == sz - 8
+//@   ensures result1 == nil ==> result0 == sz - 8 && result0 >= 0
 //@   ensures !spec.iskafka(result1)
 //@ func readBool
 //@   modifies *v, r.$rpos
 //@   ensures racct(r, sz, result0)
-//@   ensures result1 == nil ==> result0 == sz - 1
+//@   ensures result1 == nil ==> result0 == sz - 1 && result0 >= 0
 //@   ensures !spec.iskafka(result1)
 //@ func readVarInt
 //@   requires sz >= 0
@@ -920,3 +922,18 @@ package kafka
 //@ func (*Conn).writeCompressedMessages$2
 //@   option as connRead
 //@   option noframe
+
+// ApiVersions reads its response itself (it is used during version negotiation, outside Conn.do): the connection is kept on
+// every return, so the frame must be consumed to its end whenever the call succeeds or reports a broker error.
+//@ func (*connDeadline).deadline
+//@   trusted reads the deadline under its mutex
+//@ func (*Conn).ApiVersions
+//@   option noframe
+//@   modifies heap
+//@   assume the broker answers an ApiVersions v0 request with a well-formed v0 frame: error code, entry count n >= 0, n entries of 6 bytes, nothing else (a malformed count would size the allocation make([]ApiVersion, arrSize))
+//@   callsite readInt32 ensures result1 == nil ==> result0 == 6 * int(arrSize)
+//@   ensures (result1 == nil || spec.iskafka(result1)) ==> c.conn.$cclosed || (&c.rbuf).$rpos == c.$frameEnd
+//@   loop 0 invariant 0 <= i && i <= int(arrSize) && len(r) == int(arrSize)
+//@   loop 0 invariant err == nil
+//@   loop 0 invariant size == 6 * (int(arrSize) - i)
+//@   loop 0 invariant (&c.rbuf).$rpos + size == c.$frameEnd
